@@ -123,6 +123,28 @@ class VM {
    * @return true if the end has been reached
    */
   bool isDone();
+
+#ifdef THEO_VERIF
+  /* read-only observation hooks for the verification harness (/verif);
+     compiled only with -DTHEO_VERIF */
+  struct VerifFrame {
+    WordIndex data_start;
+    WordIndex seg_size;
+    RegisterIndex ret_target;
+    ProgramIndex ret_addr;
+    StackMapIndex debug_info;
+  };
+  ProgramIndex verif_ip() const { return instruction_pointer; }
+  const std::vector<Word>& verif_data() const { return data; }
+  const Program& verif_code() const { return code; }
+  std::vector<VerifFrame> verif_frames() const {
+    std::vector<VerifFrame> r;
+    for (const Activation& a : stack)
+      r.push_back({a.data_start, a.seg_size, a.ret_target, a.ret_addr,
+                   a.debug_info});
+    return r;
+  }
+#endif
 };
 
 }  // namespace Theo
